@@ -496,3 +496,22 @@ func (ex *Exec) lastRacesValue() (Value, bool) {
 	}
 	return out, len(out) > 0
 }
+
+// atomicOp: an atomic access is a visible operation and a synchronisation point
+// (release/acquire on the variable, approximated by a per-variable clock).
+func (ex *Exec) atomicOp(v Ptr) {
+	if ex.par == nil || !ex.par.running {
+		return
+	}
+	p := ex.par
+	p.yield(ex)
+	t := p.cur
+	st := p.mutex[v]
+	if st == nil {
+		st = &onceState{}
+		p.mutex[v] = st
+	}
+	join(&t.clock, st.clock)
+	t.clock[t.id]++
+	st.clock = t.clock
+}
